@@ -1,6 +1,6 @@
 import logging
 from functools import wraps
-from threading import Lock
+from threading import RLock
 from contextlib import contextmanager
 
 from .logwrap import LogWrapper
@@ -24,7 +24,10 @@ def executor_loop(fn):
 
 class ShutdownHelper(object):
     def __init__(self):
-        self._lock = Lock()
+        # Re-entrant: submit() holds this lock for its whole duration, and user code
+        # which runs within it (a callable on a synchronous executor, a map function
+        # applied to an already completed future) may submit to the same executor again.
+        self._lock = RLock()
         self.is_shutdown = False
 
     @contextmanager
